@@ -3,6 +3,7 @@ import Dmn.Lemmas.TemporalGrammar
 import Dmn.Lemmas.TemporalCanon
 import Dmn.Lemmas.TemporalZone
 import Dmn.Lemmas.TemporalMachineOps
+import Dmn.Lemmas.TemporalLocal
 
 /-!
 # C14 — temporal literals denote exactly what is written and print back
@@ -666,5 +667,70 @@ theorem time_from_numbers_rejects_instances :
     timeFromNumbers ⟨10, 0⟩ ⟨0, 0⟩ ⟨0, 0⟩ (some 172800000000000) = none ∧
     timeFromNumbers ⟨10, 0⟩ ⟨0, 0⟩ ⟨0, 0⟩ (some (-53999000000000)) = some ⟨10, 0, 0, 0, .offset (-53999)⟩ := by
   decide
+
+/-! ## Time literals with a named zone: relative to the day of the evaluation
+
+`time("hh:mm:ss@Zone")` keeps the written fields and the zone name; its `time offset` (and every comparison)
+is resolved through the date-time made of TODAY's date (`FeelDate::today_local()`) and the time
+(`mod.rs:206-212`). The clock is an input that the correspondence cannot set (it judges the literals at every
+half hour of the day of the run); the statement for every day is the theorem below, with `today` and the
+rules of the zone as parameters. -/
+
+/-- On the day `today`, under the rules `zr` of its zone, the `time offset` of a time literal with a named
+zone is the offset in force at the one instant of that day whose wall clock in the zone shows the written
+time: that instant is `today's written time − offset`, the zone's clock at it shows exactly the written
+time, and no other instant does. -/
+theorem time_zone_literal_denotes (zr : ZoneRules) (today : Date) (t : Time) (n : List Char) (o : Int)
+    (hz : t.z = .zone n) (h : timeOffsetOn zr today t = .offset o) :
+    let l := localSeconds today t.h t.mi t.s
+    zr.denote l = .instant (l - o) o ∧ zr.offsetAt (l - o) = o ∧ (l - o) + zr.offsetAt (l - o) = l ∧
+    (∀ t', t' + zr.offsetAt t' = l → t' = l - o) ∧
+    timeProperty t today (oracleByRules zr ⟨today, t⟩) .timezone = .str n := by
+  intro l
+  have ho : oracleByRules zr ⟨today, t⟩ = some o := by
+    unfold timeOffsetOn timeProperty dtProperty timeOffsetOf at h
+    simp only [hz] at h
+    cases hq : oracleByRules zr ⟨today, t⟩ with
+    | none => rw [hq] at h; cases h
+    | some o' => rw [hq] at h; injection h with h; rw [h]
+  obtain ⟨_, hd⟩ := zoneOffsetByRules_some ho
+  obtain ⟨_, h2, h3, h4⟩ := zr.denote_instant l (l - o) o hd
+  refine ⟨hd, h2, h3, h4, ?_⟩
+  simp [timeProperty, dtProperty, timeZoneOf, hz]
+
+/-- The same literal on different days: `time("01:30:00@Europe/Warsaw")` has the offset +01:00 on
+2021-03-27 and +02:00 on 2021-03-29; `time("02:30:00@Europe/Warsaw")` has no offset on 2021-03-28 (the
+reading is skipped that day) and none on 2021-10-31 (it is repeated). -/
+example :
+    let zr : ZoneRules := ⟨3600, [(1616893200, 7200), (1635642000, 3600)]⟩
+    let w : List Char := "Europe/Warsaw".toList
+    timeOffsetOn zr ⟨2021, 3, 27⟩ ⟨1, 30, 0, 0, .zone w⟩ = .offset 3600 ∧
+    timeOffsetOn zr ⟨2021, 3, 29⟩ ⟨1, 30, 0, 0, .zone w⟩ = .offset 7200 ∧
+    timeOffsetOn zr ⟨2021, 3, 28⟩ ⟨2, 30, 0, 0, .zone w⟩ = .null ∧
+    timeOffsetOn zr ⟨2021, 10, 31⟩ ⟨2, 30, 0, 0, .zone w⟩ = .null := by
+  decide
+
+/-- A time literal with a named zone has no `time offset` on the day `today` exactly when the written time
+is skipped or repeated in the zone that day (or the day is outside the calendar of chrono); the written
+hour, minute, second and zone name do not depend on the day. -/
+theorem time_zone_literal_null_iff (zr : ZoneRules) (today : Date) (t : Time) (n : List Char)
+    (hz : t.z = .zone n) :
+    (timeOffsetOn zr today t = .null ↔ oracleByRules zr ⟨today, t⟩ = none) ∧
+    (∀ o, timeOffsetOn zr today t = .offset o ↔ oracleByRules zr ⟨today, t⟩ = some o) ∧
+    (∀ today' o', timeProperty t today o' .hour = timeProperty t today' o' .hour ∧
+      timeProperty t today o' .minute = timeProperty t today' o' .minute ∧
+      timeProperty t today o' .second = timeProperty t today' o' .second ∧
+      timeProperty t today o' .timezone = timeProperty t today' o' .timezone) := by
+  refine ⟨?_, ?_, ?_⟩
+  · unfold timeOffsetOn timeProperty dtProperty timeOffsetOf
+    simp only [hz]
+    cases oracleByRules zr ⟨today, t⟩ <;> simp
+  · intro o
+    unfold timeOffsetOn timeProperty dtProperty timeOffsetOf
+    simp only [hz]
+    cases oracleByRules zr ⟨today, t⟩ <;> simp
+  · intro today' o'
+    refine ⟨rfl, rfl, rfl, ?_⟩
+    simp [timeProperty, dtProperty, timeZoneOf]
 
 end Dmn.C14
